@@ -21,7 +21,9 @@ LEVEL = 'exploration'
 RULE = ('histories over a pool of 13 trees (elisions, nested scopes, comments, two source paths, one scope of 420 names) and 15 printer objects '
         '(pretty x 3 indents, minify x drop_semi, obfuscating x {globals, shadow}, obfuscate+indent composition, '
         'extractor x fold_ops): every history of length <= 2 (thorough: 3) over a reduced alphabet, and random '
-        'histories of 50-200 operations favouring abandon / raise immediately before a full call on the same printer; '
+        'histories of 50-200 operations favouring abandon / raise immediately before a full call on the same printer, '
+        'incl. two calls of one printer alive at once; histories of 24 es5.pretty_print / es5.minify_print / es5() calls '
+        'over 23 valid and invalid texts against the explicit calls; '
         'a case = one history; non-trivial = it has at least two operations touching one printer or tree; distinct by '
         'the operation sequence.')
 ASSUMPTIONS = ['behaviour of a generator after it raised, and identity (as opposed to equality) of fragments, are not demanded']
